@@ -39,17 +39,17 @@ func init() {
 }
 
 type c05Req struct {
-	nonce    int
-	typ      int
-	mid      uint16
-	token    []byte
-	path     string
-	raw      []byte
-	copies   int // copies injected so far
-	t0       time.Duration
-	seen     bool
+	nonce      int
+	typ        int
+	mid        uint16
+	token      []byte
+	path       string
+	raw        []byte
+	copies     int // copies injected so far
+	t0         time.Duration
+	seen       bool
 	firstReply *WMsg
-	hasReply bool
+	hasReply   bool
 	// expectations accumulated at delivery time
 	minRuns, maxRuns int
 	dupExpected      int // copies classified as duplicates that must be answered like the first
@@ -186,7 +186,6 @@ func c05Run(e *Env, concurrent bool) {
 		}
 	}
 
-
 	for e.Budget() {
 		evs := w.NetEvents()
 		// new request
@@ -275,7 +274,7 @@ func c05Run(e *Env, concurrent bool) {
 				evs = append(evs, Event{Label: "separate", W: 1, Do: func() {
 					rq.sepSent = true
 					e.Logf("application sends the separate response for n=%d", rq.nonce)
-						e.Probe("app.separateResponse")
+					e.Probe("app.separateResponse")
 					go func() {
 						ctx, cancel := context.WithTimeout(context.Background(), 10*time.Second)
 						defer cancel()
